@@ -100,6 +100,15 @@ func (e *Exec) intrinsic(st *State, fr *Frame, ci *callInfo) (Value, bool, bool)
 		if a[1].DynV != nil && a[1].DynV.P != nil {
 			p := a[1].DynV.P
 			nv := e.freshValue(st, p.Typ, "errAs.target")
+			// the value found is a function of the error and the target type
+			e.declareFun("sf.errAsT", []Sort{SInt, SInt, SInt}, SInt)
+			e.declareFun("sf.errAsV", []Sort{SInt, SInt, SInt}, SInt)
+			if isIface(p.Typ) {
+				st.assert(Eq(nv.L[0], App(SInt, "sf.errAsT", a[0].L[0], a[0].L[1], IntLit(int64(tid)))))
+				st.assert(Eq(nv.L[1], App(SInt, "sf.errAsV", a[0].L[0], a[0].L[1], IntLit(int64(tid)))))
+			} else if len(nv.L) == 1 {
+				st.assert(Eq(nv.L[0], App(SInt, "sf.errAsV", a[0].L[0], a[0].L[1], IntLit(int64(tid)))))
+			}
 			old := e.loadPlace(st, p, nil)
 			sel := Value{T: p.Typ, L: make([]Term, len(nv.L))}
 			for i := range nv.L {
@@ -133,16 +142,217 @@ func (e *Exec) intrinsic(st *State, fr *Frame, ci *callInfo) (Value, bool, bool)
 	case "(*sync/atomic.Bool).Load":
 		used()
 		return scalar(tBool, e.loadGhost(st, "atomicBool", SBool, a[0].L[0])), true, false
+	case "fmt.Sprintf", "fmt.Errorf":
+		// deterministic: the result is an uninterpreted function of the format
+		// and of the (unboxed) arguments when they are statically known
+		vals, ok := e.variadicArgs(st, a[1])
+		if !ok || !isLit(t1(0)) {
+			break
+		}
+		used()
+		var leaves []Term
+		var sorts []Sort
+		for _, v := range vals {
+			for _, l := range v.L {
+				leaves = append(leaves, l)
+				sorts = append(sorts, l.Sort)
+			}
+		}
+		fname := e.sprintfName(t1(0).S, sorts)
+		if k == "fmt.Sprintf" {
+			e.declareFun(fname, sorts, SStr)
+			return scalar(tString, e.define(st, "sprintf", App(SStr, fname, leaves...))), true, false
+		}
+		// Errorf: a fresh non-nil error; %w operands are found by errors.Is
+		res := e.freshValue(st, ci.sig.Results().At(0).Type(), "errorf")
+		st.assert(Neq(res.L[0], Zero))
+		st.assert(Gt(res.L[1], e.prevTop(st)))
+		if strings.Contains(t1(0).S, "%w") {
+			e.declareFun("sf.errIs", []Sort{SInt, SInt, SInt, SInt}, SBool)
+			for _, v := range vals {
+				if v.T != nil && isIface(v.T) && isErrorLike(v) {
+					st.assert(App(SBool, "sf.errIs", res.L[0], res.L[1], v.L[0], v.L[1]))
+				}
+			}
+		}
+		return res, true, false
+	case "(*net/http.Request).Context":
+		used()
+		p := e.reqCtxPlace(a[0])
+		v := e.loadPlace(st, p, nil)
+		e.assumeLoaded(st, v)
+		st.assert(Neq(v.L[0], Zero)) // Context() never returns nil
+		v.T = ci.sig.Results().At(0).Type()
+		return v, true, false
+	case "(*net/http.Request).WithContext":
+		used()
+		r2 := e.alloc(st, "req")
+		rt := a[0].T.Underlying().(*types.Pointer).Elem()
+		e.copyFields(st, rt, r2, a[0].L[0])
+		e.storePlace(st, e.reqCtxPlace(Value{T: a[0].T, L: []Term{r2}}), a[1])
+		e.storeGhost(st, "reqOrigin", SInt, r2, e.reqOrigin(st, a[0].L[0]))
+		return Value{T: a[0].T, L: []Term{r2}}, true, false
+	case "context.WithValue":
+		used()
+		c := e.alloc(st, "ctx")
+		k, ok := e.ctxKey(st, a[1])
+		parent := a[0].L[1]
+		vt := e.cur(st, "ghost:ctx$valT", ArrS(SStr, SInt), false)
+		vv := e.cur(st, "ghost:ctx$valV", ArrS(SStr, SInt), false)
+		if ok {
+			e.setHeap(st, "ghost:ctx$valT", Store(vt, c, Store(Select(vt, parent), k, a[2].L[0])))
+			e.setHeap(st, "ghost:ctx$valV", Store(vv, c, Store(Select(vv, parent), k, a[2].L[1])))
+		} else {
+			e.note(st, "context key of non-string kind: values of the derived context unknown")
+		}
+		e.storeGhost(st, "ctx$parent", SInt, c, parent)
+		return Value{T: ci.sig.Results().At(0).Type(), L: []Term{IntLit(int64(e.eng.typeID(ctxValueType()))), c}}, true, false
+	case "context.WithCancelCause", "context.WithCancel", "context.WithTimeout":
+		used()
+		// derived context: inherits the parent's values; its own Done channel;
+		// the returned function cancels it
+		c := e.alloc(st, "ctx")
+		parent := a[0].L[1]
+		vt := e.cur(st, "ghost:ctx$valT", ArrS(SStr, SInt), false)
+		vv := e.cur(st, "ghost:ctx$valV", ArrS(SStr, SInt), false)
+		e.setHeap(st, "ghost:ctx$valT", Store(vt, c, Select(vt, parent)))
+		e.setHeap(st, "ghost:ctx$valV", Store(vv, c, Select(vv, parent)))
+		e.storeGhost(st, "ctx$parent", SInt, c, parent)
+		done := e.alloc(st, "donech")
+		e.storeGhost(st, "ctxDone", SInt, c, done)
+		cf := e.alloc(st, "cancelfn")
+		e.storeGhost(st, "cancelCtx", SInt, cf, c)
+		if k == "context.WithTimeout" {
+			d := a[1].L[0]
+			e.storeGhost(st, "ctxDeadline", SInt, c, Add(st.now, Ite(Ge(d, Zero), d, Zero)))
+		}
+		tup := ci.sig.Results()
+		ctxv := Value{T: tup.At(0).Type(), L: []Term{IntLit(int64(e.eng.typeID(ctxValueType()))), c}}
+		return Value{Tup: []Value{ctxv, {T: tup.At(1).Type(), L: []Term{cf}}}}, true, false
+	case "iface context.Context.Done":
+		used()
+		ch := e.loadGhost(st, "ctxDone", SInt, a[0].L[1])
+		return Value{T: ci.sig.Results().At(0).Type(), L: []Term{e.define(st, "done", ch)}}, true, false
+	case "iface context.Context.Value":
+		used()
+		k, ok := e.ctxKey(st, a[1])
+		if !ok {
+			return e.freshValue(st, ci.sig.Results().At(0).Type(), "ctxval"), true, false
+		}
+		vt := e.cur(st, "ghost:ctx$valT", ArrS(SStr, SInt), false)
+		vv := e.cur(st, "ghost:ctx$valV", ArrS(SStr, SInt), false)
+		res := Value{T: ci.sig.Results().At(0).Type(), L: []Term{e.define(st, "ctxvalT", Select(Select(vt, a[0].L[1]), k)), e.define(st, "ctxvalV", Select(Select(vv, a[0].L[1]), k))}}
+		e.assumeLoaded(st, res)
+		return res, true, false
 	case "time.After":
 		used()
 		ch := e.alloc(st, "timer")
 		d := t1(0)
 		e.storeGhost(st, "fireAt", SInt, ch, Add(st.now, Ite(Ge(d, Zero), d, Zero)))
-		e.storeGhost(st, "isTimer", SBool, ch, True)
 		e.emit(st, Event{Name: "TimeAfter", Args: []Term{ch, d}, Pos: ci.pos})
 		return Value{T: ci.sig.Results().At(0).Type(), L: []Term{ch}}, true, false
 	}
 	return Value{}, false, false
+}
+
+func isErrorLike(v Value) bool {
+	return v.T != nil && (isErrorType(v.T) || (v.Dyn != nil && types.Implements(v.Dyn, types.Universe.Lookup("error").Type().Underlying().(*types.Interface))) || isIface(v.T))
+}
+
+func (e *Exec) prevTop(st *State) Term { return Zero }
+
+var sprintfNames = map[string]string{}
+
+func (e *Exec) sprintfName(format string, sorts []Sort) string {
+	k := format
+	for _, s := range sorts {
+		k += "|" + string(s)
+	}
+	if n, ok := sprintfNames[k]; ok {
+		return n
+	}
+	n := fmt.Sprintf("sf.sprintf.%d", len(sprintfNames)+1)
+	sprintfNames[k] = n
+	return n
+}
+
+// variadicArgs recovers the statically known elements of a []any built at the call site.
+func (e *Exec) variadicArgs(st *State, s Value) ([]Value, bool) {
+	if !isSlice(s.T) || !isLit(sliceLen(s)) || !isLit(sliceOff(s)) {
+		return nil, false
+	}
+	var n, off int
+	fmt.Sscanf(sliceLen(s).S, "%d", &n)
+	fmt.Sscanf(sliceOff(s).S, "%d", &off)
+	var out []Value
+	for i := 0; i < n; i++ {
+		v, ok := st.arrVals[fmt.Sprintf("%s|%d", sliceBase(s).S, off+i)]
+		if !ok {
+			return nil, false
+		}
+		if v.DynV != nil {
+			out = append(out, *v.DynV)
+		} else {
+			out = append(out, v)
+		}
+	}
+	return out, true
+}
+
+var ctxValT types.Type
+
+func ctxValueType() types.Type {
+	if ctxValT == nil {
+		ctxValT = types.NewPointer(types.NewNamed(types.NewTypeName(0, nil, "context.valueCtx", nil), types.NewStruct(nil, nil), nil))
+	}
+	return ctxValT
+}
+
+func (e *Exec) reqCtxPlace(r Value) *Place {
+	rt := r.T.Underlying().(*types.Pointer).Elem()
+	st := rt.Underlying().(*types.Struct)
+	for i := 0; i < st.NumFields(); i++ {
+		if st.Field(i).Name() == "ctx" {
+			return &Place{Kind: PField, Base: r.L[0], Root: rt, Path: ".ctx", Typ: st.Field(i).Type()}
+		}
+	}
+	panic("http.Request has no ctx field")
+}
+
+// reqOrigin: the request object a (possibly re-contexted) request derives from.
+func (e *Exec) reqOrigin(st *State, r Term) Term {
+	o := e.loadGhost(st, "reqOrigin", SInt, r)
+	return Ite(Eq(o, Zero), r, o)
+}
+
+// ctxKey: context keys of string kind are identified by their type and text.
+func (e *Exec) ctxKey(st *State, key Value) (Term, bool) {
+	if key.Dyn == nil || !isString(key.Dyn) {
+		return Term{}, false
+	}
+	s := e.unbox(st, key, key.Dyn)
+	return App(SStr, "str.++", StrLit(typeKey(key.Dyn)+":"), s.L[0]), true
+}
+
+// copyFields copies every field of struct type t that the repository ever
+// accesses from object src to object dst (shallow struct copy), plus ghost fields.
+func (e *Exec) copyFields(st *State, t types.Type, dst, src Term) {
+	tk := typeKey(t)
+	for _, f := range e.eng.accessed[tk] {
+		for _, l := range flatten(f.Type()) {
+			key := tk + "." + f.Name() + l.Suffix
+			arr := e.cur(st, key, l.Sort, false)
+			e.setHeap(st, key, Store(arr, dst, Select(arr, src)))
+		}
+	}
+	for _, g := range e.eng.specs.Ghosts {
+		if g.IsField && g.Owner == tk {
+			key := tk + "$" + g.Name
+			sort := sortOfSpecType((&SpecEnv{e: e}).specType(g.Result))
+			arr := e.cur(st, key, sort, false)
+			e.setHeap(st, key, Store(arr, dst, Select(arr, src)))
+		}
+	}
 }
 
 // ---------------------------------------------------------------------------
@@ -289,26 +499,6 @@ func (e *Exec) lockCheckAccess(st *State, p *Place, write bool, pos token.Pos) {
 
 func (e *Exec) onAcquire(st *State, key string, obj Term, v Value) {
 	invs := e.eng.specs.LockInv[key]
-	// forget guarded fields of this object, then assume the lock invariant
-	for _, g := range e.eng.specs.Guards {
-		if g.Lock != key {
-			continue
-		}
-		for k, s := range e.keySort {
-			if e.guardFor(k) == g && !strings.HasPrefix(k, "elem:") {
-				_ = s
-				if st.fresh[obj.S] && !st.published[obj.S] {
-					continue
-				}
-				arr, ok := st.heap[k]
-				if !ok {
-					continue
-				}
-				f := e.freshConst("acq."+k, elemSort(arr.Sort))
-				e.setHeap(st, k, Store(arr, obj, f))
-			}
-		}
-	}
 	if len(invs) == 0 {
 		return
 	}
@@ -320,6 +510,43 @@ func (e *Exec) onAcquire(st *State, key string, obj Term, v Value) {
 			continue
 		}
 		st.assert(t)
+	}
+}
+
+// havocContents forgets the contents of the map or slice stored in field
+// `field` (a heap-key prefix "pkg.T.f") of object obj.
+func (e *Exec) havocContents(st *State, field string, obj Term) {
+	dot := strings.LastIndex(field, ".")
+	tname, fname := field[:dot], field[dot+1:]
+	env := &SpecEnv{e: e, st: st, vars: map[string]Value{}}
+	i := strings.Index(tname, ".")
+	sp := e.eng.spkgs[tname[:i]]
+	if sp == nil {
+		return
+	}
+	o := sp.Pkg.Scope().Lookup(tname[i+1:])
+	if o == nil {
+		return
+	}
+	self := Value{T: types.NewPointer(o.Type()), L: []Term{obj}}
+	fv := env.selectField(self, fname)
+	switch u := fv.T.Underlying().(type) {
+	case *types.Map:
+		dk, ks, ok := mapKeys(u)
+		if !ok {
+			return
+		}
+		dom := e.mapArr(st, dk, ArrS(SInt, ArrS(ks, SBool)), nil)
+		e.setHeap(st, dk, Store(dom, fv.L[0], e.freshConst("acq.dom", ArrS(ks, SBool))))
+		for _, l := range flatten(u.Elem()) {
+			vk := "mapval:" + typeKey(u) + l.Suffix
+			arr := e.mapArr(st, vk, ArrS(SInt, ArrS(ks, l.Sort)), nil)
+			e.setHeap(st, vk, Store(arr, fv.L[0], e.freshConst("acq.val", ArrS(ks, l.Sort))))
+		}
+	case *types.Slice:
+		for _, l := range flatten(u.Elem()) {
+			e.havocAt(st, "elem:"+typeKey(u.Elem())+l.Suffix, l.Sort, true, sliceBase(fv))
+		}
 	}
 }
 
@@ -363,8 +590,89 @@ func (e *Exec) onRelease(st *State, key string, obj Term, v Value, pos token.Pos
 // requires held(...) clauses are ordinary requires; nothing else to do here.
 func (e *Exec) callLockEffects(st *State, c *FuncContract, env *SpecEnv, ci *callInfo) {}
 
-// blockingPoint: no blocking primitive while a lock is held.
+// interfere: while this goroutine is blocked, others run. Everything guarded
+// by a lock may change (whole arrays: any object), monotone ghosts only grow.
+func (e *Exec) interfere(st *State) {
+	var keys []string
+	for k := range e.keySort {
+		keys = append(keys, k)
+	}
+	sort.Strings(keys)
+	for _, g := range e.eng.specs.Guards {
+		for _, f := range g.Fields {
+			if strings.HasSuffix(f, "[]") {
+				continue
+			}
+			for _, k := range keys {
+				if k == f || strings.HasPrefix(k, f+".") || strings.HasPrefix(k, f+"#") {
+					s := e.keySort[k]
+					old, had := st.heap[k]
+					st.heap[k] = e.freshConst("Hi."+k, s)
+					st.seq++
+					st.roots[k] = rootInfo{st.heap[k], st.seq}
+					e.rootWF(st, k, st.heap[k], false)
+					if e.eng.specs.StableNonNil[k] {
+						if !had {
+							old = e.declare(h0Name(k, st.epoch), s)
+						}
+						st.assert(Term{fmt.Sprintf("(forall ((x Int)) (! (=> (not (= (select %s x) 0)) (not (= (select %s x) 0))) :pattern ((select %s x))))", old.S, st.heap[k].S, st.heap[k].S), SBool})
+					}
+				}
+			}
+		}
+	}
+	for _, k := range keys {
+		if strings.HasPrefix(k, "mapdom:map[*net/http.Request]") || strings.HasPrefix(k, "mapval:map[*net/http.Request]") {
+			s := e.keySort[k]
+			st.heap[k] = e.freshConst("Hi."+k, s)
+		}
+		if k == "ghost:closedAt" {
+			// write-once: channels already closed keep their closing time
+			old := st.heap[k]
+			if old.S == "" {
+				old = e.cur(st, k, SInt, false)
+			}
+			cl := e.cur(st, "ghost:closed", SBool, false)
+			st.heap[k] = e.freshConst("Hi."+k, e.keySort[k])
+			st.assert(Term{fmt.Sprintf("(forall ((x Int)) (! (=> (select %s x) (= (select %s x) (select %s x))) :pattern ((select %s x))))", cl.S, st.heap[k].S, old.S, st.heap[k].S), SBool})
+			continue
+		}
+		if strings.HasPrefix(k, "ghost:") {
+			g := e.eng.specs.Ghosts[strings.TrimPrefix(k, "ghost:")]
+			if (g != nil && g.Monotone) || k == "ghost:closed" {
+				old, ok := st.heap[k]
+				if !ok {
+					old = e.cur(st, k, elemSort(e.keySort[k]), false)
+				}
+				st.heap[k] = e.freshConst("Hi."+k, e.keySort[k])
+				st.assert(Term{fmt.Sprintf("(forall ((x Int)) (! (=> (select %s x) (select %s x)) :pattern ((select %s x))))", old.S, st.heap[k].S, st.heap[k].S), SBool})
+			}
+		}
+	}
+	nt := e.freshConst("top.interf", SInt)
+	st.assert(Ge(nt, st.allocTop))
+	st.allocTop = nt
+}
+
+// interferenceKey: heap arrays that interfere() may replace.
+func (e *Exec) interferenceKey(k string) bool {
+	if e.guardFor(k) != nil {
+		return true
+	}
+	if strings.HasPrefix(k, "mapdom:map[*net/http.Request]") || strings.HasPrefix(k, "mapval:map[*net/http.Request]") {
+		return true
+	}
+	if strings.HasPrefix(k, "ghost:") {
+		g := e.eng.specs.Ghosts[strings.TrimPrefix(k, "ghost:")]
+		return (g != nil && g.Monotone) || k == "ghost:closed" || k == "ghost:closedAt"
+	}
+	return false
+}
+
+// blockingPoint: no blocking primitive while a lock is held; shared state may
+// change while blocked.
 func (e *Exec) blockingPoint(st *State, pos token.Pos, what string) {
+	e.interfere(st)
 	if !e.checkLocks || e.disc != nil {
 		return
 	}
@@ -429,9 +737,6 @@ func (e *Exec) joinSpawned(st *State, wg Value, pos token.Pos) {
 func (e *Exec) execSelect(st *State, fr *Frame, x *ssa.Select) ([]*State, bool) {
 	// A blocking select returns the index of a ready case. Readiness of a
 	// receive: closed(ch) for close-only channels, now >= fireAt(ch) for timers.
-	if x.Blocking {
-		e.blockingPoint(st, x.Pos(), "select")
-	}
 	tup := x.Type().(*types.Tuple)
 	n := len(x.States)
 	idx := e.freshConst("select.idx", SInt)
@@ -445,15 +750,29 @@ func (e *Exec) execSelect(st *State, fr *Frame, x *ssa.Select) ([]*State, bool) 
 	st.assert(Ge(nn, st.now))
 	before := st.now
 	st.now = nn
+	var closedBefore []Term
+	for _, s := range x.States {
+		closedBefore = append(closedBefore, e.define(st, "wasclosed", e.loadGhost(st, "closed", SBool, e.val(fr, s.Chan).L[0])))
+	}
+	e.loadGhost(st, "closedAt", SInt, Zero)
+	if x.Blocking {
+		// a case that is ready on arrival means no waiting; otherwise others run
+		e.blockingPoint(st, x.Pos(), "select")
+	}
 	var earliest []Term
 	for i, s := range x.States {
 		ch := e.val(fr, s.Chan).L[0]
-		isT := e.loadGhost(st, "isTimer", SBool, ch)
+		isT := BoolLit(isTimerChan(s.Chan.Type()))
 		fire := e.loadGhost(st, "fireAt", SInt, ch)
+		wasClosed := closedBefore[i]
 		closed := e.loadGhost(st, "closed", SBool, ch)
 		closedAt := e.loadGhost(st, "closedAt", SInt, ch)
+		// closed while we were blocked: closing time lies within the wait
+		st.assert(Implies(And(closed, Not(wasClosed)), And(Le(before, closedAt), Le(closedAt, st.now))))
+		// the select does not sleep past the moment a channel case became ready
+		earliest = append(earliest, Implies(And(Not(isT), closed), Le(st.now, Ite(Ge(closedAt, before), closedAt, before))))
 		// chosen case was ready at return time
-		ready := Ite(isT, Ge(st.now, fire), Implies(e.closeOnly(ch), closed))
+		ready := Ite(isT, Ge(st.now, fire), closed)
 		st.assert(Implies(Eq(idx, IntLit(int64(i))), ready))
 		_ = closedAt
 		// the select does not sleep past the earliest moment a timer case is ready
@@ -468,6 +787,17 @@ func (e *Exec) execSelect(st *State, fr *Frame, x *ssa.Select) ([]*State, bool) 
 	fr.env[x] = Value{T: x.Type(), Tup: vals}
 	fr.pc++
 	return nil, true
+}
+
+// isTimerChan: channels of time.Time are timer channels (time.After, Ticker.C);
+// every other channel the repository selects on is close-only.
+func isTimerChan(t types.Type) bool {
+	c, ok := t.Underlying().(*types.Chan)
+	if !ok {
+		return false
+	}
+	n, ok := types.Unalias(c.Elem()).(*types.Named)
+	return ok && n.Obj().Pkg() != nil && n.Obj().Pkg().Path() == "time" && n.Obj().Name() == "Time"
 }
 
 // closeOnly(ch): ghost predicate "values are never sent on ch, it is only closed".
